@@ -204,6 +204,28 @@ func main() {
 		h.Emit(line, "frames "+hexs(frames)+" "+state)
 		h.Res.Sequences++
 		h.Res.OracleEvals++
+		// what the byte stream says, read in one piece (the property: delivery does not depend on how the transport cuts it)
+		var want [][]byte
+		for rest := stream; len(rest) >= 4; {
+			n := int(binary.BigEndian.Uint32(rest[:4]))
+			if n == 0 {
+				rest = rest[4:]
+				continue
+			}
+			if uint32(n) > max || len(rest) < 4+n {
+				break
+			}
+			want = append(want, rest[4:4+n])
+			rest = rest[4+n:]
+		}
+		same := len(want) == len(frames)
+		for i := 0; same && i < len(want); i++ {
+			same = string(want[i]) == string(frames[i])
+		}
+		if !same && state != "hang" {
+			h.FailWith("C17:frames-depend-on-chunking", fmt.Sprintf("units %v in %d pieces: %d frames were handed on, the byte stream holds %d complete frames within the limit (or a frame differs byte for byte)", units, len(pieces), len(frames), len(want)), []string{line})
+			h.FailWith("C16:frames-depend-on-chunking", fmt.Sprintf("units %v in %d pieces: %d frames were handed on, the byte stream holds %d complete frames within the limit (or a frame differs byte for byte)", units, len(pieces), len(frames), len(want)), []string{line})
+		}
 		if state == "hang" {
 			h.FailWith("C17:receive-loop-hangs", fmt.Sprintf("units %v in %d pieces: the receive loop neither came back for more bytes nor closed the transport within 4 s", units, len(pieces)), []string{line})
 		}
